@@ -26,6 +26,10 @@ type entry struct {
 	// parses the input itself (outside the measured window, but under the same growth rule so that a
 	// family on which parsing is super-linear does not run away)
 	tree func(t *ast.AST) string
+	// quickBytes caps the input size in the quick tier for entry points whose cost per byte is very
+	// high (the regular-expression scanners execute ~10^3 counted blocks per input byte, so the
+	// 10^5 floor of the rule is reached at a few hundred bytes already); 0 = no cap of its own
+	quickBytes int
 }
 
 // sink keeps results alive so that the compiler cannot drop a call.
@@ -98,15 +102,15 @@ func entries() []entry {
 			tree: (func(t *ast.AST) string { sink = t.Format(ast.CompactStyle()); return "ok" })},
 		{name: "Scan", doc: "pkg/sql/security Scanner.Scan(tree)", needAST: true,
 			tree: (func(t *ast.AST) string { sink = security.NewScanner().Scan(t); return "ok" })},
-		{name: "ScanSQL", doc: "pkg/sql/security Scanner.ScanSQL(text)",
+		{name: "ScanSQL", doc: "pkg/sql/security Scanner.ScanSQL(text)", quickBytes: 1 << 16,
 			prepare: func(sql string) (func() string, bool) {
 				return func() string { sink = security.NewScanner().ScanSQL(sql); return "ok" }, true
 			}},
-		{name: "TextScan", doc: "pkg/security Scanner.Scan(text)",
+		{name: "TextScan", doc: "pkg/security Scanner.Scan(text)", quickBytes: 1 << 16,
 			prepare: func(sql string) (func() string, bool) {
 				return func() string { sink = textsec.NewScanner().Scan(sql); return "ok" }, true
 			}},
-		{name: "LintString", doc: "linter.LintString with the default rule set",
+		{name: "LintString", doc: "linter.LintString with the default rule set", quickBytes: 1 << 18,
 			prepare: func(sql string) (func() string, bool) {
 				l := defaultLinter()
 				return func() string {
